@@ -73,7 +73,7 @@ func verifC10d() { // flatten results and several scopes
 func verifC20c() { // callbacks of functions whose error result comes first
 	verifC20run(&vProfile{name: "C20c", clauses: []string{"C20."},
 		maxScopes: 1, nRegs: 2, maxParams: 1, maxResults: 1, pForms: 1, rForms: 1, names: 1, callbacks: true, decorators: 1, errPos: true,
-		faults: 2, recoverOpt: 0, nInvokes: 1, invParams: 1, distinct: true, noMissing: true})
+		faults: 2, recoverOpt: 0, nInvokes: 2, invParams: 1, distinct: true, noMissing: true})
 }
 
 func verifC01e() { // two decorators of one key at two levels, resolved twice
@@ -144,3 +144,111 @@ func init() {
 	verifEntries["verifC16e"] = verifC16e
 	verifEntries["verifC16f"] = verifC16f
 }
+
+func verifC05sf() { // deferred verification: a cycle closed after a verified Invoke, through optional / group edges
+	verifRunProfile(&vProfile{name: "C05sf", clauses: vC05s,
+		maxScopes: 1, nRegs: 1, maxParams: 1, maxResults: 1, pForms: 2, rForms: 1, names: 1, groups: true, optional: true, deferOpt: 1,
+		faults: 1, nInvokes: 2, invParams: 1, lateRegs: 1, objOnly: true})
+}
+
+func init() { verifEntries["verifC05sf"] = verifC05sf }
+
+// ---- profiles added after the third round of seeded changes -----------------------------------
+
+func verifC03e() { // exported constructors with scope-private dependencies behind optional fields
+	verifRunProfile(&vProfile{name: "C03e", clauses: vC03,
+		maxScopes: 2, nRegs: 2, maxParams: 1, maxResults: 1, pForms: 2, rForms: 1, names: 1, optional: true, export: true,
+		faults: 1, nInvokes: 1, invParams: 1, distinct: true, objOnly: true})
+}
+
+func verifC13d() { // panicking decorators / constructors with callbacks registered
+	verifRunProfile(&vProfile{name: "C13d", clauses: vC13,
+		maxScopes: 1, nRegs: 2, maxParams: 0, maxResults: 1, pForms: 1, rForms: 1, names: 1, decorators: 1, callbacks: true,
+		faults: 3, recoverOpt: 2, nInvokes: 1, invParams: 1, distinct: true})
+}
+
+func verifC06d() { // two accepted registrations over two scopes, the rejected candidate, a later registration
+	verifC06run(&vProfile{name: "C06d", clauses: []string{"C06."},
+		maxScopes: 2, nRegs: 2, maxParams: 1, maxResults: 1, pForms: 1, rForms: 1, names: 1, scopesFirst: true,
+		faults: 1, nInvokes: 1, invParams: 0, lateRegs: 1, lateFirst: true, distinct: true}, false)
+}
+
+func verifC06e() { // value groups: a rejected feeder must not disturb the accepted ones
+	verifC06run(&vProfile{name: "C06e", clauses: []string{"C06."},
+		maxScopes: 1, nRegs: 1, maxParams: 1, maxResults: 1, pForms: 2, rForms: 1, names: 1, groups: true, objOnly: true,
+		faults: 1, nInvokes: 1, invParams: 1}, false)
+}
+
+func verifC01g() { // a decorator with an extra dependency that a descendant scope shadows
+	verifRunProfile(&vProfile{name: "C01g", clauses: vC01,
+		maxScopes: 2, nRegs: 4, maxParams: 0, maxResults: 1, pForms: 1, rForms: 1, names: 1, decorators: 1, decor2: true, scopesFirst: true,
+		regKinds: []int{vCtor, vCtor, vCtor, vDecor}, faults: 1, nInvokes: 1, invParams: 1, noMissing: true})
+}
+
+func verifC16g() { // Export and private registrations of one key in either order
+	verifC16run(&vProfile{name: "C16g", clauses: []string{"C16."},
+		maxScopes: 2, nRegs: 2, maxParams: 0, maxResults: 1, pForms: 1, rForms: 1, names: 1, export: true,
+		faults: 1, nInvokes: 1, invParams: 1})
+}
+
+func verifC15d() { // one constructor with two same-typed parameters told apart by name only (self-cycles through either)
+	verifC15run(&vProfile{name: "C15d", clauses: []string{"C15."},
+		maxScopes: 1, nRegs: 1, maxParams: 2, maxResults: 1, pForms: 2, rForms: 2, names: 2,
+		faults: 1, nInvokes: 1, invParams: 0})
+}
+
+func verifC07d() { // a failing dependency of a decorator below an optional consumer
+	verifRunProfile(&vProfile{name: "C07d", clauses: append([]string{"C13.root"}, vC07...),
+		maxScopes: 1, nRegs: 4, maxParams: 1, maxResults: 1, pForms: 2, rForms: 1, names: 1, optional: true, decorators: 1, decor2: true,
+		regKinds: []int{vCtor, vCtor, vDecor, vCtor}, faults: 2, nInvokes: 1, invParams: 1, distinct: true, objOnly: true, noMissing: true,
+		allAccepted: true, strictDecor: true})
+}
+
+func verifC10e() { // two group names that differ by white space only
+	verifRunProfile(&vProfile{name: "C10e", clauses: vC10,
+		maxScopes: 1, nRegs: 2, maxParams: 0, maxResults: 1, pForms: 2, rForms: 2, names: 1, groups: true, groupNames: 2,
+		faults: 1, nInvokes: 1, invParams: 1})
+}
+
+func verifC11e() { // a hard consumer of the group registered before the soft consumer asks
+	verifRunProfile(&vProfile{name: "C11e", clauses: vC11,
+		maxScopes: 1, nRegs: 2, maxParams: 1, maxResults: 1, pForms: 2, rForms: 2, names: 1, groups: true, soft: true, objOnly: true,
+		faults: 1, nInvokes: 1, invParams: 1})
+}
+
+func verifC02f() { // group feeders with dependencies decorated by consumers of the group
+	verifRunProfile(&vProfile{name: "C02f", clauses: append([]string{"C05s.nopanic"}, vC02...),
+		maxScopes: 1, nRegs: 3, maxParams: 1, maxResults: 1, pForms: 2, rForms: 1, names: 1, groups: true, decorators: 1, decor2: true, objOnly: true,
+		regKinds: []int{vCtor, vCtor, vDecor}, faults: 1, nInvokes: 1, invParams: 1})
+}
+
+func verifC12e() { // a key provided and decorated above, provided again below
+	verifRunProfile(&vProfile{name: "C12e", clauses: append([]string{"C01.arg"}, vC12...),
+		maxScopes: 2, nRegs: 3, maxParams: 0, maxResults: 1, pForms: 1, rForms: 1, names: 1, decorators: 1,
+		regKinds: []int{vCtor, vDecor, vCtor}, faults: 1, nInvokes: 2, invParams: 1, noMissing: true})
+}
+
+func verifC09d() { // group feeders around a registration rejected for a cycle
+	verifRunProfile(&vProfile{name: "C09d", clauses: append([]string{"C10.all", "C10.count", "C10.foreign"}, vC09...),
+		maxScopes: 1, nRegs: 2, maxParams: 1, maxResults: 1, pForms: 2, rForms: 1, names: 1, groups: true, objOnly: true,
+		faults: 1, nInvokes: 1, invParams: 1})
+}
+
+func init() {
+	for n, f := range map[string]func(){
+		"verifC03e": verifC03e, "verifC13d": verifC13d, "verifC06d": verifC06d, "verifC06e": verifC06e, "verifC01g": verifC01g,
+		"verifC16g": verifC16g, "verifC15d": verifC15d, "verifC07d": verifC07d, "verifC10e": verifC10e, "verifC11e": verifC11e,
+		"verifC02f": verifC02f, "verifC12e": verifC12e, "verifC09d": verifC09d,
+	} {
+		verifEntries[n] = f
+	}
+}
+
+func verifC04e() { // an optional consumer above a decorator whose dependency fails: the error is not hidden
+	verifRunProfile(&vProfile{name: "C04e", clauses: vC04,
+		maxScopes: 1, nRegs: 4, maxParams: 1, maxResults: 1, pForms: 2, rForms: 1, names: 1, optional: true, decorators: 1, decor2: true,
+		regKinds: []int{vCtor, vCtor, vDecor, vCtor}, faults: 2, nInvokes: 1, invParams: 1, distinct: true, objOnly: true, noMissing: true,
+		allAccepted: true, strictDecor: true})
+}
+
+func init() { verifEntries["verifC04e"] = verifC04e }
